@@ -5,6 +5,7 @@
 //!   zkmc gate                                    run the reference's fixture gate only
 //!   zkmc worker                                  (internal) isolated worker for untrusted-input sweeps
 mod common;
+mod edits;
 mod zk;
 mod c01;
 mod c02;
